@@ -57,11 +57,19 @@ class Report:
         self.explanation = ""
         self.t0 = time.time()
         self.min_instances: dict = {}
+        self.pins: dict = {}
 
     # ---------------------------------------------------------------- recording
     def ob(self, rule, construct, ok, msg, loc=None, detail="", trivial=False, extra=None):
         self.obs.append(Obligation(rule, str(construct), str(detail), bool(ok), msg, loc, trivial, extra))
         return bool(ok)
+
+    def pin(self, group, rule, construct, ok, msg, loc=None, detail="", trivial=False, extra=None):
+        """An obligation decided by matching today's statement shapes (a *pinned idiom*).  Pins are grouped (usually
+        per analysed function).  An isolated deviation inside an otherwise intact group is a violation; if most pins
+        of a group fail, the function was restructured and the verdict is 'cannot decide' (exit 2), never an alarm."""
+        self.pins.setdefault(group, []).append(len(self.obs))
+        return self.ob(rule, construct, ok, msg, loc, detail, trivial, extra)
 
     def saw(self, kind: str, item) -> None:
         self.analysed.setdefault(kind, [])
@@ -97,6 +105,13 @@ class Report:
                 raise AnalysisError(
                     f"rule {rule} matched {got} instance(s), fewer than the {n} confirmed by hand "
                     f"-- the rule's subject moved or an idiom is no longer recognised"
+                )
+        for group, idxs in self.pins.items():
+            bad = [i for i in idxs if not self.obs[i].ok]
+            if bad and len(idxs) >= 2 and len(bad) * 2 > len(idxs):
+                raise AnalysisError(
+                    f"pinned idiom group '{group}': {len(bad)} of {len(idxs)} shape rules do not match -- the code was "
+                    f"restructured beyond what the idiom table knows (first: {self.obs[bad[0]].rule} {self.obs[bad[0]].construct})"
                 )
         known, _fixed = self._known()
         known_keys = {
